@@ -225,6 +225,10 @@ def truth(t, cell, S, P, env):
 
 def run(ctx):
     ctx.trust("hashlib.sha1; the hasher's byte-level behaviour for all sizes is NOT decided")
+    # the padded stream is hashed to its end: the iteration stops at the exhaustion of the last file, not at a piece count
+    # computed from the unpadded total
+    from .c01 import end_of_iteration
+    end_of_iteration(ctx, "C15.3", ctx.prog.cls("torrentfile.hasher:Hasher").methods["__next__"])
     cls = ctx.prog.cls("torrentfile.torrent:TorrentFile")
     fn = cls.methods["assemble"]
     g = C.cfg_of(fn)
